@@ -38,4 +38,13 @@ def opU (a : List String) : String :=
       match tab r s with | some q => toString q | Option.none => "-1")
   | _ => "bad-op"
 
+/-- c08x <sn|cdn|ldn|udn|core> <nreg> → per region "s:k,w|- e:k,w|-" -/
+def opX (a : List String) : String :=
+  match a with
+  | [k, nreg] =>
+    let tab := match k with | "sn" => xslotSN | "cdn" => xslotCDN | "ldn" => xslotLDN | "udn" => xslotUDN | _ => xslotCore
+    let sh : XSlot → String := fun o => match o with | some (b, w) => s!"{b},{w}" | Option.none => "-"
+    " ".intercalate ((List.range nreg.toNat!).map fun r => s!"s:{sh (tab r).1} e:{sh (tab r).2}")
+  | _ => "bad-op"
+
 end Drv.C08
